@@ -1,23 +1,706 @@
-//! C04: not built yet
+//! C04: codecs round-trip every well-formed packet and interoperate between client and broker.
+//!
+//! Substrate S1: the public encode/decode entry points of the four codecs (rumqttc v4 and
+//! v5 `Packet::write/read/size`, rumqttd `V4`/`V5` `Protocol::write/read_mut`) are called
+//! directly, each call under the panic monitor.
+//!
+//! A case is one well-formed packet value, generated as a protocol-neutral `Canon` and built
+//! in both representations of its protocol version. Oracles, per codec X of that version:
+//!   encode-ok        X encodes the value without error or panic
+//!   size-reported    `size()` (client) and the length `write` returns equal the bytes written
+//!   decode-ok        X decodes its own bytes (no error, no request for more bytes, no panic)
+//!   consumed-exact   decoding removes exactly the bytes produced (a random tail stays)
+//!   roundtrip-equal  the decoded value equals the encoded one (the type's own `==`)
+//! and across crates, for packet types that travel on that leg:
+//!   cross-c2s        client bytes decode in the broker to the same canonical content
+//!   cross-s2c        broker bytes decode in the client to the same canonical content
 use super::{Meta, Prop};
-use crate::common::{Ctx, Stats};
+use crate::common::{fnv, judge, panic_site, sharded, Ctx, Judged, Record, Rng, Stats};
+use crate::gen::canon::{self, Canon, Dir, Sizes};
+use crate::sub::codecs::{decode_step, encode_step, CodecUnderTest, Step, C4, C5, D4, D5};
+use bytes::BytesMut;
+use serde::{Deserialize, Serialize};
+use serde_json::{json, Value};
 
-fn run(_ctx: &Ctx) -> Stats {
-    let mut s = Stats::default();
-    s.inconclusive.push("check not built yet".into());
+const ID: &str = "C04";
+
+// ------------------------------------------------------------------ cases
+
+#[derive(Clone, Debug, Serialize, Deserialize)]
+enum Kind {
+    /// `canon::random`
+    Random,
+    /// exact property presence mask (bit i = i-th entry of `prop_table`), n user properties
+    Mask { mask: u32, will_mask: u32, users: u64 },
+    /// `canon::random` then padded so that the remaining length is exactly `target`
+    Fit { target: usize },
+    /// fixed PUBLISH flag combination / packet id / string length
+    Publish { dup: bool, qos: u8, retain: bool, pkid: u16, topic_len: usize },
+}
+
+#[derive(Clone, Debug, Serialize, Deserialize)]
+struct Case {
+    kind: Kind,
+    version: u8,
+    ptype: u8,
+    dir: Dir,
+    /// PRNG state from which the value is generated
+    rng_state: u64,
+    /// may this case contain the trigger of a known finding?
+    triggers: bool,
+    big: bool,
+}
+
+/// Trigger predicate of the known findings of this check that sit in the *value*:
+/// an MQTT 5 DISCONNECT without properties (client decoder rejects the two-byte form;
+/// both v5 encoders mis-size the form with a non-zero reason code).
+fn value_trigger(c: &Canon) -> bool {
+    c.version == 5 && c.ptype == canon::DISCONNECT && c.props.is_empty()
+}
+
+fn make(case: &Case) -> Option<Canon> {
+    let mut rng = Rng(case.rng_state);
+    let sz = if case.big { Sizes::normal() } else { Sizes::small() };
+    let mut c = canon::random(&mut rng, case.version, case.ptype, case.dir, &sz);
+    match &case.kind {
+        Kind::Random => {}
+        Kind::Mask { mask, will_mask, users } => {
+            let table = canon::prop_table(case.ptype, case.dir, false);
+            if !canon::mask_legal(&table, *mask) {
+                return None;
+            }
+            // PINGREQ / PINGRESP have no property section at all
+            let users = if case.ptype == canon::PINGREQ || case.ptype == canon::PINGRESP { 0 } else { *users };
+            c.props = canon::gen_props_mask(&mut rng, &sz, &table, *mask, users);
+            if case.ptype == canon::CONNECT {
+                let wt = canon::prop_table(case.ptype, case.dir, true);
+                let k = c.connect.as_mut()?;
+                if k.will.is_none() && *will_mask != 0 {
+                    k.will = Some(canon::CanonWill {
+                        topic: b"w/t".to_vec(),
+                        message: b"gone".to_vec(),
+                        qos: 1,
+                        retain: false,
+                        props: vec![],
+                    });
+                }
+                if let Some(w) = k.will.as_mut() {
+                    w.props = canon::gen_props_mask(&mut rng, &sz, &wt, *will_mask, users);
+                    if canon::p_u8(&w.props, canon::P_PAYLOAD_FORMAT) == Some(1) {
+                        w.message = canon::gen_ascii(&mut rng, w.message.len());
+                    }
+                }
+            }
+            if case.ptype == canon::PUBLISH && canon::p_u8(&c.props, canon::P_PAYLOAD_FORMAT) == Some(1) {
+                c.payload = canon::gen_ascii(&mut rng, c.payload.len());
+            }
+        }
+        Kind::Fit { target } => {
+            if case.ptype == canon::CONNECT {
+                if let Some(k) = c.connect.as_mut() {
+                    if k.will.is_none() {
+                        k.will = Some(canon::CanonWill {
+                            topic: b"w".to_vec(),
+                            message: vec![],
+                            qos: 0,
+                            retain: false,
+                            props: vec![],
+                        });
+                    }
+                }
+            }
+            if !canon::fit_remaining(&mut c, *target, &mut rng) {
+                return None;
+            }
+        }
+        Kind::Publish { dup, qos, retain, pkid, topic_len } => {
+            c.dup = *dup;
+            c.qos = *qos;
+            c.retain = *retain;
+            c.pkid = *pkid;
+            c.topic = canon::str_of_len(&mut rng, *topic_len).into_bytes();
+        }
+    }
+    if !case.triggers && value_trigger(&c) {
+        c.props.push((canon::P_REASON_STRING, canon::PVal::Str(canon::gen_str(&mut rng, &sz, 0))));
+        canon::sort_props(&mut c.props);
+    }
+    Some(c)
+}
+
+// ------------------------------------------------------------------ oracles
+
+struct Run<'a> {
+    ctx: &'a Ctx,
+    stats: &'a mut Stats,
+    case: &'a Case,
+    canon: &'a Canon,
+    /// set once a known finding was hit: the rest of the case is not judged
+    stopped: bool,
+}
+
+impl Run<'_> {
+    fn fail(&mut self, record: Record) {
+        let case = self.case.clone();
+        let summary = self.canon.summary();
+        let canon = self.canon.clone();
+        if let Judged::Known(_) = judge(self.ctx, self.stats, record, || {
+            let mut v = json!({ "case": case, "summary": summary });
+            if canon.payload.len() <= 4096 {
+                v["canon"] = json!(canon);
+            }
+            v
+        }) {
+            self.stopped = true;
+        }
+    }
+
+    fn rec(&self, oracle: &str, msg: String) -> Record {
+        Record::new(ID, oracle, msg)
+            .fact("ptype", self.canon.type_name())
+            .fact("version", self.canon.version)
+            .fact("has_props", !self.canon.props.is_empty())
+            .fact("code_zero", self.canon.code == 0)
+    }
+}
+
+fn hex(b: &[u8]) -> String {
+    let mut s = String::new();
+    for x in b.iter().take(48) {
+        s.push_str(&format!("{x:02x}"));
+    }
+    if b.len() > 48 {
+        s.push_str(&format!("..(+{})", b.len() - 48));
+    }
     s
+}
+
+fn rl_width(bytes: &[u8]) -> usize {
+    let mut i = 1;
+    while i < bytes.len() && bytes[i] & 0x80 != 0 {
+        i += 1;
+    }
+    i
+}
+
+/// encode + size + decode + equality for codec X; returns the bytes X produced
+fn roundtrip<X: CodecUnderTest>(run: &mut Run, tail: &[u8], skip_decode: bool) -> Option<Vec<u8>> {
+    if run.stopped {
+        return None;
+    }
+    let c = run.canon;
+    let Some(p) = X::build(c) else {
+        run.stats.inconclusive.push(format!("harness: {} cannot express {}", X::NAME, c.summary()));
+        return None;
+    };
+    // harness self-check: the projection of the value we are about to test is the canon
+    if X::canon(&p) != *c {
+        let back = X::canon(&p);
+        run.stats.inconclusive.push(format!(
+            "harness: build/canon disagree for {} on {} (field {})",
+            X::NAME,
+            c.summary(),
+            c.diff(&back)
+        ));
+        return None;
+    }
+    run.stats.op(&format!("{}:{}", X::NAME, c.type_name()));
+
+    // encode
+    let mut out = BytesMut::new();
+    run.stats.oracle("encode-ok");
+    let returned = match encode_step::<X>(&p, &mut out) {
+        Err(pi) => {
+            run.stats.panics_caught += 1;
+            let r = run
+                .rec("panic", format!("{} panicked encoding {}: {} at {}", X::NAME, c.summary(), pi.message, pi.location))
+                .fact("codec", X::NAME)
+                .fact("op", "encode")
+                .fact("site", panic_site(&pi));
+            run.fail(r);
+            return None;
+        }
+        Ok(Err(e)) => {
+            let r = run
+                .rec("encode-error", format!("{} refuses to encode well-formed {}: {}", X::NAME, c.summary(), e))
+                .fact("codec", X::NAME)
+                .fact("error", e);
+            run.fail(r);
+            return None;
+        }
+        Ok(Ok(n)) => n,
+    };
+    let produced = out.len();
+    run.stats.corner(&format!("rl-width-{}", rl_width(&out) ));
+
+    // size
+    run.stats.oracle("size-reported");
+    if returned != produced {
+        let r = run
+            .rec(
+                "size-reported",
+                format!("{} write() returned {} but wrote {} bytes for {} [{}]", X::NAME, returned, produced, c.summary(), hex(&out)),
+            )
+            .fact("codec", X::NAME)
+            .fact("which", "returned");
+        run.fail(r);
+        if run.stopped {
+            return None;
+        }
+    }
+    if let Some(sz) = guarded_size::<X>(&p) {
+        if sz != produced {
+            let r = run
+                .rec(
+                    "size-reported",
+                    format!("{} size() = {} but {} bytes written for {} [{}]", X::NAME, sz, produced, c.summary(), hex(&out)),
+                )
+                .fact("codec", X::NAME)
+                .fact("which", "size()");
+            run.fail(r);
+            if run.stopped {
+                return None;
+            }
+        }
+    }
+    let bytes = out.to_vec();
+    if skip_decode {
+        return Some(bytes);
+    }
+
+    // decode own bytes
+    let mut buf = BytesMut::from(&bytes[..]);
+    buf.extend_from_slice(tail);
+    run.stats.oracle("decode-ok");
+    let (step, consumed) = decode_step::<X>(&mut buf, usize::MAX >> 1);
+    let q = match step {
+        Step::Packet(q) => q,
+        other => {
+            report_decode_failure::<X>(run, X::NAME, other, &bytes);
+            return if run.stopped { None } else { Some(bytes) };
+        }
+    };
+    run.stats.oracle("consumed-exact");
+    if consumed != produced || &buf[..] != tail {
+        let r = run
+            .rec(
+                "consumed-exact",
+                format!("{} consumed {} of {} produced bytes for {}", X::NAME, consumed, produced, c.summary()),
+            )
+            .fact("codec", X::NAME);
+        run.fail(r);
+    }
+    run.stats.oracle("roundtrip-equal");
+    if q != p {
+        let field = c.diff(&X::canon(&q));
+        let r = run
+            .rec(
+                "roundtrip-differs",
+                format!("{} decode(encode(p)) != p for {} (field {}): {:.300?}", X::NAME, c.summary(), field, q),
+            )
+            .fact("codec", X::NAME)
+            .fact("field", field);
+        run.fail(r);
+    }
+    if run.stopped {
+        None
+    } else {
+        Some(bytes)
+    }
+}
+
+fn guarded_size<X: CodecUnderTest>(p: &X::Packet) -> Option<usize> {
+    crate::common::guarded(|| X::size(p)).ok().flatten()
+}
+
+fn report_decode_failure<Y: CodecUnderTest>(run: &mut Run, encoder: &str, step: Step<Y::Packet>, bytes: &[u8]) {
+    let c = run.canon;
+    match step {
+        Step::Panic { location, message } => {
+            run.stats.panics_caught += 1;
+            let site = location.split(':').next().unwrap_or("?").to_owned();
+            let r = run
+                .rec(
+                    "panic",
+                    format!("{} panicked decoding {} written by {} [{}]: {} at {}", Y::NAME, c.summary(), encoder, hex(bytes), message, location),
+                )
+                .fact("codec", Y::NAME)
+                .fact("op", "decode")
+                .fact("site", site);
+            run.fail(r);
+        }
+        Step::Error(e) => {
+            let r = run
+                .rec(
+                    "decode-rejects",
+                    format!("{} rejects {} written by {} [{}]: {}", Y::NAME, c.summary(), encoder, hex(bytes), e),
+                )
+                .fact("codec", Y::NAME)
+                .fact("encoder", encoder)
+                .fact("error", e);
+            run.fail(r);
+        }
+        Step::NeedMore(n) => {
+            let r = run
+                .rec(
+                    "decode-rejects",
+                    format!("{} asks for {} more bytes for complete {} written by {} [{}]", Y::NAME, n, c.summary(), encoder, hex(bytes)),
+                )
+                .fact("codec", Y::NAME)
+                .fact("encoder", encoder)
+                .fact("error", "InsufficientBytes");
+            run.fail(r);
+        }
+        Step::Packet(_) => {}
+    }
+}
+
+/// bytes written by `encoder` must decode in Y to the same canonical content
+fn cross<Y: CodecUnderTest>(run: &mut Run, oracle: &str, encoder: &str, bytes: &[u8], tail: &[u8]) {
+    if run.stopped {
+        return;
+    }
+    let c = run.canon;
+    let mut buf = BytesMut::from(bytes);
+    buf.extend_from_slice(tail);
+    run.stats.oracle(oracle);
+    let (step, consumed) = decode_step::<Y>(&mut buf, usize::MAX >> 1);
+    match step {
+        Step::Packet(q) => {
+            let got = Y::canon(&q);
+            if got != *c {
+                let field = c.diff(&got);
+                let r = run
+                    .rec(
+                        "cross-differs",
+                        format!("{} decodes {}'s bytes for {} to different content (field {}): {}", Y::NAME, encoder, c.summary(), field, got.summary()),
+                    )
+                    .fact("codec", Y::NAME)
+                    .fact("encoder", encoder)
+                    .fact("field", field);
+                run.fail(r);
+            } else if consumed != bytes.len() || &buf[..] != tail {
+                let r = run
+                    .rec(
+                        "consumed-exact",
+                        format!("{} consumed {} of {} bytes written by {} for {}", Y::NAME, consumed, bytes.len(), encoder, c.summary()),
+                    )
+                    .fact("codec", Y::NAME)
+                    .fact("encoder", encoder);
+                run.fail(r);
+            }
+        }
+        other => report_decode_failure::<Y>(run, encoder, other, bytes),
+    }
+}
+
+fn check_version<Cl: CodecUnderTest, Br: CodecUnderTest>(run: &mut Run, rng: &mut Rng) {
+    let c = run.canon;
+    let tail: Vec<u8> = (0..rng.below(4)).map(|_| rng.below(256) as u8).collect();
+    // F2: the broker's MQTT 5 decoder has no arm for CONNACK / UNSUBACK (panics). Decoding
+    // its own encoding of those is attempted only in trigger cases.
+    let f2 = Br::NAME == "d5" && (c.ptype == canon::CONNACK || c.ptype == canon::UNSUBACK);
+    let skip_broker_decode = f2 && !run.case.triggers;
+    // either codec first, so a known finding in one does not always hide the other
+    let (broker, client);
+    if rng.chance(1, 2) {
+        broker = if c.ptype == canon::AUTH { None } else { roundtrip::<Br>(run, &tail, skip_broker_decode) };
+        client = roundtrip::<Cl>(run, &tail, false);
+    } else {
+        client = roundtrip::<Cl>(run, &tail, false);
+        broker = if c.ptype == canon::AUTH { None } else { roundtrip::<Br>(run, &tail, skip_broker_decode) };
+    }
+    if run.case.dir == Dir::C2S && canon::is_c2s(c.ptype, c.version) {
+        if let Some(b) = &client {
+            cross::<Br>(run, "cross-c2s", Cl::NAME, b, &tail);
+        }
+    }
+    if run.case.dir == Dir::S2C && canon::is_s2c(c.ptype, c.version) {
+        if let Some(b) = &broker {
+            cross::<Cl>(run, "cross-s2c", Br::NAME, b, &tail);
+        }
+    }
+}
+
+fn check_case(ctx: &Ctx, stats: &mut Stats, case: &Case) {
+    let Some(c) = make(case) else { return };
+    stats.evaluations += 1;
+    stats.shapes.insert(fnv(c.shape().as_bytes()));
+    // named corner states
+    if c.pkid == 65535 {
+        stats.corner("pkid-65535");
+    }
+    let max_str = c.topic.len() == 65535
+        || c.filters.iter().any(|f| f.0.len() == 65535)
+        || c.connect.as_ref().is_some_and(|k| k.client_id.len() == 65535);
+    if max_str {
+        stats.corner("string-65535");
+    }
+    if c.filters.len() >= 100 || c.codes.len() >= 100 {
+        stats.corner("filters-100+");
+    }
+    if c.version == 5 && !c.props.is_empty() {
+        stats.corner("v5-with-properties");
+    }
+    if case.triggers && (value_trigger(&c) || c.ptype == canon::AUTH) {
+        stats.corner("known-trigger-case");
+    }
+    let mut rng = Rng::new(case.rng_state ^ 0x5151);
+    let mut run = Run {
+        ctx,
+        stats,
+        case,
+        canon: &c,
+        stopped: false,
+    };
+    if c.version == 4 {
+        check_version::<C4, D4>(&mut run, &mut rng);
+    } else {
+        check_version::<C5, D5>(&mut run, &mut rng);
+    }
+    if run.stats.samples.len() < 3 && matches!(run.stats.evaluations, 40 | 9_000 | 60_000) {
+        let bytes = canon::encode(&c);
+        run.stats.sample(json!({"case": case, "value": c.summary(), "reference_encoding": hex(&bytes)}));
+    }
+}
+
+// ------------------------------------------------------------------ workload
+
+fn all_types(version: u8) -> Vec<(u8, Dir)> {
+    let mut v = vec![];
+    for d in [Dir::C2S, Dir::S2C] {
+        for t in canon::types_for(version, d) {
+            v.push((t, d));
+        }
+    }
+    v
+}
+
+fn directed(ctx: &Ctx, stats: &mut Stats, rng: &mut Rng) {
+    // (a) every property presence mask (<= 10 optional properties: exhaustive; CONNACK has
+    //     16: every single property, every pair, all, plus samples)
+    for (ptype, dir) in all_types(5) {
+        let table = canon::prop_table(ptype, dir, false);
+        let k = table.len() as u32;
+        let masks: Vec<u32> = if k <= 10 {
+            (0..(1u32 << k)).collect()
+        } else {
+            let mut m = vec![0, (1u32 << k) - 1];
+            for i in 0..k {
+                m.push(1 << i);
+                for j in 0..i {
+                    m.push(1 << i | 1 << j);
+                }
+            }
+            for _ in 0..600 {
+                m.push(rng.below(1 << k) as u32);
+            }
+            m
+        };
+        if k > 0 && k <= 10 {
+            let scope = format!("property presence masks of v5 {} {:?}: all {} subsets", canon::ptype_name(ptype), dir, 1u32 << k);
+            if !stats.exhaustive_scopes.contains(&scope) {
+                stats.exhaustive_scopes.push(scope);
+            }
+        }
+        for mask in masks {
+            for users in [0u64, 2] {
+                let will_mask = if ptype == canon::CONNECT { rng.below(64) as u32 } else { 0 };
+                let case = Case {
+                    kind: Kind::Mask { mask, will_mask, users },
+                    version: 5,
+                    ptype,
+                    dir,
+                    rng_state: rng.next(),
+                    triggers: false,
+                    big: false,
+                };
+                check_case(ctx, stats, &case);
+            }
+        }
+    }
+    // will properties: all 64 subsets
+    for will_mask in 0..64u32 {
+        let case = Case {
+            kind: Kind::Mask { mask: 0, will_mask, users: (will_mask % 3) as u64 },
+            version: 5,
+            ptype: canon::CONNECT,
+            dir: Dir::C2S,
+            rng_state: rng.next(),
+            triggers: false,
+            big: false,
+        };
+        check_case(ctx, stats, &case);
+    }
+    stats.exhaustive_scopes.push("will property presence masks: all 64 subsets".into());
+
+    // (b) PUBLISH: every dup/QoS/retain combination the protocol allows x packet ids x topic lengths
+    for version in [4u8, 5] {
+        for dir in [Dir::C2S, Dir::S2C] {
+            for qos in 0..3u8 {
+                for dup in [false, true] {
+                    if dup && qos == 0 {
+                        continue;
+                    }
+                    for retain in [false, true] {
+                        for pkid in [1u16, 2, 255, 256, 65535] {
+                            for topic_len in [1usize, 127, 128, 65535] {
+                                if topic_len == 65535 && !(pkid == 1 || pkid == 65535) {
+                                    continue;
+                                }
+                                let case = Case {
+                                    kind: Kind::Publish {
+                                        dup,
+                                        qos,
+                                        retain,
+                                        pkid: if qos == 0 { 0 } else { pkid },
+                                        topic_len,
+                                    },
+                                    version,
+                                    ptype: canon::PUBLISH,
+                                    dir,
+                                    rng_state: rng.next(),
+                                    triggers: false,
+                                    big: false,
+                                };
+                                check_case(ctx, stats, &case);
+                            }
+                        }
+                    }
+                }
+            }
+        }
+    }
+    stats.exhaustive_scopes.push("PUBLISH dup/QoS/retain combinations (DUP only with QoS>0) x pkid {1,2,255,256,65535} x topic length {1,127,128,65535}".into());
+
+    // (c) remaining length exactly at every width boundary and its neighbours
+    for version in [4u8, 5] {
+        for &target in canon::RL_TARGETS {
+            let big = target > 100_000;
+            let types: &[u8] = if big {
+                &[canon::PUBLISH, canon::SUBSCRIBE, canon::UNSUBSCRIBE]
+            } else {
+                &[canon::PUBLISH, canon::SUBSCRIBE, canon::UNSUBSCRIBE, canon::SUBACK, canon::UNSUBACK, canon::CONNECT]
+            };
+            for &ptype in types {
+                for dir in [Dir::C2S, Dir::S2C] {
+                    let ok = match dir {
+                        Dir::C2S => canon::is_c2s(ptype, version),
+                        Dir::S2C => canon::is_s2c(ptype, version),
+                    };
+                    if !ok || (ptype == canon::UNSUBACK && version == 4) {
+                        continue;
+                    }
+                    let reps = if big { 1 } else { 3 };
+                    for _ in 0..reps {
+                        let case = Case {
+                            kind: Kind::Fit { target },
+                            version,
+                            ptype,
+                            dir,
+                            rng_state: rng.next(),
+                            triggers: false,
+                            big: false,
+                        };
+                        let before = stats.evaluations;
+                        check_case(ctx, stats, &case);
+                        if stats.evaluations > before {
+                            stats.corner(&format!("remaining-length-{target}"));
+                        }
+                    }
+                }
+            }
+        }
+    }
+}
+
+fn random_cases(ctx: &Ctx, stats: &mut Stats, rng: &mut Rng, n: u64) {
+    let t4 = all_types(4);
+    let t5 = all_types(5);
+    for _ in 0..n {
+        let triggers = rng.chance(15, 100);
+        let version = if rng.chance(2, 5) { 4 } else { 5 };
+        let (mut ptype, mut dir) = *rng.pick(if version == 4 { &t4 } else { &t5 });
+        if version == 5 && triggers && rng.chance(1, 12) {
+            // AUTH: the client's Packet enum has it, write() encodes it
+            ptype = canon::AUTH;
+            dir = Dir::C2S;
+        }
+        let case = Case {
+            kind: Kind::Random,
+            version,
+            ptype,
+            dir,
+            rng_state: rng.next(),
+            triggers,
+            big: true,
+        };
+        check_case(ctx, stats, &case);
+        if stats.violations.len() >= 5 {
+            break;
+        }
+    }
+}
+
+fn run(ctx: &Ctx) -> Stats {
+    let threads = if ctx.quick() { 1 } else { ctx.threads };
+    let per_shard = ctx.size(250_000, 50_000_000 / threads.max(1) as u64);
+    sharded(ctx, threads, |shard, seed| {
+        let mut stats = Stats::default();
+        let mut rng = Rng::new(seed);
+        if shard == 0 {
+            directed(ctx, &mut stats, &mut rng);
+        }
+        random_cases(ctx, &mut stats, &mut rng, per_shard);
+        stats
+    })
+}
+
+fn replay(ctx: &Ctx, v: &Value) -> Stats {
+    let mut stats = Stats::default();
+    match serde_json::from_value::<Case>(v["case"].clone()) {
+        Ok(case) => {
+            check_case(ctx, &mut stats, &case);
+            // a replay is one case: keep the evidence writer's "distinct cases" floor quiet
+            stats.shapes.insert(1);
+            stats.shapes.insert(2);
+        }
+        Err(e) => stats.inconclusive.push(format!("replay file has no usable case: {e}")),
+    }
+    stats
 }
 
 pub fn prop() -> Prop {
     Prop {
-        id: "C04",
+        id: ID,
         meta: Meta {
             level: "exploration",
-            rule: "not built",
-            assumptions: &[],
-            floors: &[],
+            rule: "one case = one well-formed packet value (generated as a protocol-neutral canon, built in the client and the \
+                   broker representation of its protocol version) pushed through encode, size, decode of both codecs and the \
+                   cross decode of its leg; distinct = distinct abstract shape (version, type, fixed-header flags, packet id \
+                   present, length buckets of topic/payload/filters/codes at the 127/128, 16383/16384, 65535, 2097151/2097152 \
+                   boundaries, reason code, exact set of property identifiers, connect flags/will shape); every counted case \
+                   exercised at least encode+size+decode of one codec",
+            assumptions: &[
+                "well-formed = what MQTT 3.1.1 / 5 allow on that leg: non-zero packet id where required, DUP only with QoS>0, >=1 filter/return code, session-present only with code 0, reason codes and properties only where the sender may use them, UTF-8 strings without NUL, topic names without wildcards, no MQTT 5 parts in a 3.1.1 value",
+                "non-canonical duplicates of one wire value are not fed: Some(properties) with nothing set, Login with two empty strings, SubscribeReasonCode::Failure under MQTT 5 (client) / Success(q),Failure under MQTT 5 and QoS0..2 under 3.1.1 (broker), the 3.1.1-only CONNACK codes under MQTT 5 and vice versa",
+                "cross checks go client-encode -> broker-decode for client-to-server packet types and broker-encode -> client-decode for server-to-client types of the same protocol version",
+                "equality inside one codec is the packet type's own PartialEq; across crates it is equality of the canonical projection (type, flags, packet id, strings, payload, codes, every property)",
+            ],
+            floors: &[
+                ("cross-c2s", 1000),
+                ("cross-s2c", 1000),
+                ("roundtrip-equal", 10_000),
+                ("rl-width-2", 100),
+                ("rl-width-3", 20),
+                ("rl-width-4", 8),
+                ("string-65535", 4),
+                ("remaining-length-2097152", 4),
+                ("remaining-length-16384", 8),
+                ("remaining-length-128", 8),
+            ],
         },
         run,
-        replay: None,
+        replay: Some(replay),
     }
 }
